@@ -3,7 +3,9 @@ import PMV.AstSexp
 import PMV.Spec.PyCore
 import PMV.Model.Scope
 import PMV.Model.RenameAst
+import PMV.Model.HoistAst
 import PMV.Driver.Printer
+import PMV.Driver.Minify
 namespace PMV.Driver.PyCore
 open PMV PMV.Driver PMV.PyCore
 
@@ -82,6 +84,78 @@ def renameApply (args : List Sexp) : Option String := do
       | some (ps, pro) => (renOf ps, pro)
       | none => (id, [])
     pure (encStr ((if modOK R m then "OK 1\n" else "OK 0\n") ++ Driver.Printer.printModule (renModule R m)))
+  | _ => none
+
+end PMV.Driver.PyCore
+
+namespace PMV.Driver.PyCore
+open PMV PMV.Driver PMV.PyCore PMV.RenameAst PMV.HoistAst
+
+def cpair? (s : Sexp) : Option (Const × String) := do
+  match (← list? s) with
+  | [c, a] => pure ((← AstSexp.const? c), (← str? a))
+  | _ => none
+
+def pentry? (s : Sexp) : Option PEntry := do
+  match (← list? s) with
+  | [.atom "k"] => pure .keep
+  | [.atom "g", c, a] => pure (.ghost (← AstSexp.const? c) (← str? a))
+  | _ => none
+
+/-- `(name ((const name) …) (entry …))` -/
+def hoistFn? (s : Sexp) : Option (String × CMap × List PEntry) := do
+  match (← list? s) with
+  | [n, g, pro] => pure ((← str? n), (← (← list? g).mapM cpair?), (← (← list? pro).mapM pentry?))
+  | _ => none
+
+/-- `((const name) …) (entry …) (function entries)` -/
+def hoistW? (s : Sexp) : Option HoistW := do
+  match (← list? s) with
+  | [_, pro, fns] =>
+    let pro ← (← list? pro).mapM pentry?
+    let fns ← (← list? fns).mapM hoistFn?
+    pure { proMod := pro, proFn := fun f => match fns.lookup f with | some (_, p) => p | none => [] }
+  | _ => none
+
+/-- `min.applyast (rename entries) (hoist witness) <module>` → `OK <renaming ok> <hoisting ok>` and the text of
+    `hoistModule W (renModule R m)`: renaming of function locals, then hoisting of literals -/
+def minApply (args : List Sexp) : Option String := do
+  match args with
+  | [es, hw, m] =>
+    let es ← (← list? es).mapM fnEntry?
+    let w ← hoistW? hw
+    let m ← AstSexp.module? m
+    let R : RenTable := fun f => match es.lookup f with
+      | some (ps, pro) => (renOf ps, pro)
+      | none => (id, [])
+    let m1 := renModule R m
+    pure (encStr ((if modOK R m then "OK 1" else "OK 0") ++ (if hoistOK w m1 then " 1\n" else " 0\n") ++
+      Driver.Printer.printModule (hoistModule w m1)))
+  | _ => none
+
+end PMV.Driver.PyCore
+
+namespace PMV.Driver.PyCore
+open PMV PMV.Driver PMV.PyCore PMV.RenameAst PMV.HoistAst PMV.Minify
+
+/-- `min.full (option bits) (oracle) (eligible names) (rename entries) (hoist witness) <module>` →
+    `OK <renaming ok> <hoisting ok>` and the text of `hoistModule W (renModule R (transformM … m))`: the default pipeline -/
+def minFull (args : List Sexp) : Option String := do
+  match args with
+  | [o, orc, el, es, hw, m] =>
+    let o ← Driver.Minify.opts? o
+    let orc ← Driver.Fold.oracle? orc
+    let el ← (← list? el).mapM str?
+    let es ← (← list? es).mapM fnEntry?
+    let w ← hoistW? hw
+    let m ← AstSexp.module? m
+    let R : RenTable := fun f => match es.lookup f with
+      | some (ps, pro) => (renOf ps, pro)
+      | none => (id, [])
+    let m0 := transformM Generated.precTable Generated.spacing orc el o m
+    let m1 := renModule R m0
+    pure (encStr ((if modOK R m0 then "OK 1" else "OK 0") ++ (if hoistOK w m1 then " 1\n" else " 0\n") ++
+      Driver.Printer.printModule (hoistModule w m1)))
   | _ => none
 
 end PMV.Driver.PyCore
